@@ -7,6 +7,9 @@ import (
 	"runtime/pprof"
 
 	_ "verif/harness/checks"
+	_ "verif/harness/checks/c11"
+	_ "verif/harness/checks/c13"
+	_ "verif/harness/checks/c19"
 	"verif/harness/lib"
 )
 
